@@ -31,7 +31,13 @@ JudgeSequence(e) ==
                   \/ fs[i].hdr.num.val # i - 1 \/ fs[i].hdr.variable
                   \/ InterleaveFrame(fs[i]) # e.accepted[i].samples
                   \/ fs[i].hdr.rate # e.accepted[i].rate \/ fs[i].hdr.nch # e.accepted[i].channels \/ fs[i].hdr.bps # e.accepted[i].bps
-    IN /\ IF e.panicked THEN PrintT(<<"REJECT", e.id, l, "C16.no-panic">>) ELSE TRUE
+        \* C19 for raw frame streams (consumed by C19's check, ignored by C16's): header (<= 16 bytes) + per channel 8 + 32 bits +
+        \* the samples verbatim at the frame's own depth (+ 1 bit per sample for one channel of a stereo pair) + CRC-16
+        CeilDiv(a, d) == (a + d - 1) \div d
+        Bound(f) == 16 + CeilDiv(f.hdr.nch * 40 + f.bs * f.hdr.nch * f.hdr.bps + (IF f.hdr.nch = 2 THEN f.bs ELSE 0), 8) + 2
+    IN /\ \A i \in 1..Len(fs) : IF fs[i].errs = {} /\ fs[i].bytes > Bound(fs[i])
+                                 THEN PrintT(<<"NOTE", "oversize", e.id, i, fs[i].bytes, Bound(fs[i])>>) ELSE TRUE
+       /\ IF e.panicked THEN PrintT(<<"REJECT", e.id, l, "C16.no-panic">>) ELSE TRUE
        /\ IF Len(fs) # n \/ (n > 0 /\ fs[Len(fs)].next # Len(e.bytes)) \/ \E i \in 1..(IF Len(fs) < n THEN Len(fs) ELSE n) : Bad(i)
           THEN PrintT(<<"REJECT", e.id, l, "C16.one-writer-emits-the-accepted-frames-numbered-from-0",
                         [i \in 1..Len(fs) |-> IF fs[i].errs = {} THEN fs[i].hdr.num.val ELSE -1]>>) ELSE TRUE
